@@ -5,7 +5,7 @@ SPEC = {
     "lean_namespace": "Hive.SerixJson",
     "driver": "drv_c01b",
     "harness": "c01b",
-    "theorems": ["C01_json_roundtrip", "C01_json_api_roundtrip", "C01_json_map_any_iteration_order",
+    "theorems": ["C01_json_roundtrip", "C01_json_roundtrip_canon", "C01_json_canon_id", "C01_json_api_roundtrip", "C01_json_map_any_iteration_order",
                  "C01_json_key_order_irrelevant", "C01_json_key_order_by_lookup", "C01_json_map_member_order"],
     "trusted_base": [
         "hand-written model Hive/Model/SerixJson.lean (+SerixJsonText) of serializer/serix/map_encode.go and map_decode.go, tied by "
@@ -26,15 +26,16 @@ SPEC = {
         "text": "JSON/map form of serix. Theorems over every schema (structs with named/optional/omitempty/embedded/inlined fields and object codes, "
                 "pointers, interfaces, slices, arrays, Go maps, byte arrays, typed byte arrays, big.Int, time, all integer/float widths), every value, "
                 "validation on/off and any float text codec: mapDecode(mapEncode v) = v for every expressible type and value (C01_json_roundtrip, "
-                "C01_json_api_roundtrip), a Go map round-trips in every iteration order (C01_json_map_any_iteration_order), and decoding does not depend "
+                "C01_json_api_roundtrip) and = canon v - the documented result: nil collections come back empty, omitempty leaves the zero value, "
+                "times before the epoch saturate, NaN payloads are canonicalised - for every well-typed value (C01_json_roundtrip_canon), a Go map round-trips in every iteration order (C01_json_map_any_iteration_order), and decoding does not depend "
                 "on the order of object members at any depth (C01_json_key_order_irrelevant, JPerm/VEquiv). The hand-written model is re-validated on "
                 "every run against random reflect-built Go types registered in a fresh serix.API: JSONEncode vs mapEncode, JSONDecode vs mapDecode on the "
                 "produced document, on the document with every object's members shuffled and on documents with a member removed/added; "
-                "JsonExpressible/ValExpressible verdicts are compared with an independent Go statement; the Go-only oracle JSONDecode(JSONEncode(v)) = v "
+                "JsonExpressible/ValExpressible/WellTyped verdicts and canon are compared with an independent Go statement; the Go-only oracle "
+                "JSONDecode(JSONEncode(v)) = documented result (exact: nil-ness, float bits) "
                 "turns a broken tie into a failing input.",
         "note": "Trusted: Lean kernel; model Hive/Model/SerixJson.lean (tie = differential execution); strconv float text (FloatCodec parameter, checked "
-                "by the Go oracle); encoding/json carrying the Json tree. Known findings: typed byte array held by value and *[n]byte without type "
-                "settings are encoded but cannot be decoded. Not modelled: self-serialising types, validators, MustOccur, inlined interfaces, non-UTF-8 strings.",
+                "by the Go oracle); encoding/json carrying the Json tree. No open finding (five fix: commits in map_encode.go / map_decode.go). Not modelled: self-serialising types, validators, MustOccur, inlined interfaces, non-UTF-8 strings.",
         "technique": "Lean 4 mutual structural induction over the schema type + differential correspondence on random schemas",
     },
     "assumptions": ["documents handed to the decoder are map[string]any trees (no duplicate member names)"],
